@@ -274,7 +274,7 @@ var solvers = []solverSpec{
 	}},
 }
 
-var solverSem = make(chan struct{}, 16)
+var solverSem = make(chan struct{}, 24)
 
 func runOne(ctx context.Context, sp solverSpec, file string, tsec int) (string, string, int64) {
 	solverSem <- struct{}{}
@@ -314,52 +314,33 @@ func runOne(ctx context.Context, sp solverSpec, file string, tsec int) (string, 
 func Solve(file string, tsec int, thorough bool) SolverResult {
 	ctx := context.Background()
 	res := SolverResult{Status: "unknown"}
-	if !thorough {
-		// pure e-matching first: answers in milliseconds when the triggers suffice
-		if st, out, ms := runOne(ctx, ematchSolver, file, 2); st == "unsat" {
-			res.Status, res.Solver, res.Ms, res.Output = st, ematchSolver.name, ms, "unsat"
-			res.All = append(res.All, fmt.Sprintf("%s:%s:%dms", ematchSolver.name, st, ms))
-			_ = out
-			return res
-		} else {
-			res.All = append(res.All, fmt.Sprintf("%s:%s:%dms", ematchSolver.name, st, ms))
-		}
-		quickT := 3
-		if tsec < quickT {
-			quickT = tsec
-		}
-		st, out, ms := runOne(ctx, solvers[0], file, quickT)
-		res.All = append(res.All, fmt.Sprintf("%s:%s:%dms", solvers[0].name, st, ms))
-		if st == "unsat" || st == "sat" {
-			res.Status, res.Solver, res.Ms, res.Output = st, solvers[0].name, ms, trunc(out, 4000)
-			if st == "sat" {
-				res.Model = parseModel(out)
-				res.Values = parseValues(out)
-			}
-			return res
-		}
-	}
 	type r struct {
 		st, out string
 		ms      int64
 		name    string
 	}
-	ch := make(chan r, len(solvers))
+	specs := append([]solverSpec{ematchSolver}, solvers...)
+	ch := make(chan r, len(specs))
 	cctx, cancel := context.WithCancel(ctx)
 	defer cancel()
-	for _, sp := range solvers {
+	for _, sp := range specs {
 		sp := sp
 		go func() {
-			st, out, ms := runOne(cctx, sp, file, tsec)
+			t := tsec
+			if sp.name == ematchSolver.name && t > 3 {
+				t = 3
+			}
+			st, out, ms := runOne(cctx, sp, file, t)
 			ch <- r{st, out, ms, sp.name}
 		}()
 	}
 	var unsatR, satR *r
-	for range solvers {
+	for range specs {
 		x := <-ch
 		x2 := x
 		res.All = append(res.All, fmt.Sprintf("%s:%s:%dms", x.name, x.st, x.ms))
-		if x.st == "sat" && satR == nil {
+		// the e-matching-only configuration cannot produce trustworthy models
+		if x.st == "sat" && x.name != ematchSolver.name && satR == nil {
 			satR = &x2
 			if !thorough {
 				break
@@ -570,24 +551,71 @@ func Discharge(obs []*Oblig, outDir string, tsec int, thorough bool) {
 			fn := filepath.Join(outDir, fmt.Sprintf("ob%04d.smt2", i))
 			_ = os.WriteFile(fn, []byte(text), 0o644)
 			ob.File = fn
-			r := Solve(fn, tsec, thorough)
-			if r.Status != "unsat" && r.Status != "sat" && ob.Variants != nil {
-				// hypothesis relaxation: forall-exists hypotheses can send the
-				// instantiation engines into matching loops; a proof from fewer
-				// hypotheses is still a proof.
-				for vi, vt := range ob.Variants() {
+			tw := time.Now()
+			defer func() { ob.WallMs = time.Since(tw).Milliseconds() }()
+			var vts []string
+			if ob.Variants != nil {
+				vts = ob.Variants()
+			}
+			type vres struct {
+				r    SolverResult
+				main bool
+				idx  int
+			}
+			rch := make(chan vres, len(vts)+1)
+			go func() { rch <- vres{Solve(fn, tsec, thorough), true, -1} }()
+			// hypothesis relaxation: forall-exists hypotheses can send the instantiation
+			// engines into matching loops; a proof from fewer hypotheses is still a proof.
+			// The weaker variants are started only if the full query is not decided quickly.
+			var early *vres
+			if len(vts) > 0 {
+				select {
+				case x := <-rch:
+					early = &x
+				case <-time.After(1500 * time.Millisecond):
+				}
+			}
+			if early != nil && (early.r.Status == "unsat" || early.r.Status == "sat") {
+				vts = nil
+			}
+			for vi, vt := range vts {
+				vi, vt := vi, vt
+				go func() {
 					vf := filepath.Join(outDir, fmt.Sprintf("ob%04d.v%d.smt2", i, vi))
 					_ = os.WriteFile(vf, []byte(vt), 0o644)
-					vr := Solve(vf, 4, false)
-					r.All = append(r.All, fmt.Sprintf("variant%d[%s]", vi, strings.Join(vr.All, ",")))
-					if vr.Status == "unsat" {
-						vr.All = r.All
-						vr.Solver += "+relaxed"
-						r = vr
-						break
+					rch <- vres{Solve(vf, 6, false), false, vi}
+				}()
+			}
+			if early != nil {
+				e := *early
+				go func() { rch <- e }()
+			}
+			var r SolverResult
+			var mainR *SolverResult
+			done := false
+			var notes []string
+			for n := 0; n < len(vts)+1 && !done; n++ {
+				x := <-rch
+				if x.main {
+					mr := x.r
+					mainR = &mr
+					if x.r.Status == "unsat" || x.r.Status == "sat" {
+						r = x.r
+						done = true
+					}
+				} else {
+					notes = append(notes, fmt.Sprintf("variant%d[%s]", x.idx, strings.Join(x.r.All, ",")))
+					if x.r.Status == "unsat" {
+						r = x.r
+						r.Solver += "+relaxed"
+						done = true
 					}
 				}
 			}
+			if !done && mainR != nil {
+				r = *mainR
+			}
+			r.All = append(r.All, notes...)
 			ob.Res = r
 			mu.Lock()
 			cache[key(text)] = &r
